@@ -38,7 +38,7 @@ def default_targets(g):
 def rand_sched(rnd, n): return [rnd.randrange(0, 8) for _ in range(n)]
 
 def gen_history(rnd, sid, nedges, nsteps, feat=None, faults=0.0, wf_reads=True, repeat_builds=True, partial_targets=0.3,
-                mutate=True):
+                mutate=True, tokens=0.25):
     g = engine.gen_graph(rnd, nedges, feat, wf_reads)
     h = Hist(sid, g)
     def do_build(fp):
@@ -52,7 +52,8 @@ def gen_history(rnd, sid, nedges, nsteps, feat=None, faults=0.0, wf_reads=True, 
         if fp and rnd.random() < fp and ne:
             for e in rnd.sample(ne, rnd.randrange(1, min(3, len(ne)) + 1)):
                 fl[e.out0] = (rnd.choice([1, 1, 2, 3, 127, 255]), rnd.random() < 0.4)
-        return h.build(rnd, targets, j=j, k=k, sched=rand_sched(rnd, 2 * len(g.edges) + 2), faults=fl or None)
+        tok = rnd.choice([0, 1, 2, 3]) if rnd.random() < tokens else None
+        return h.build(rnd, targets, j=j, k=k, sched=rand_sched(rnd, 2 * len(g.edges) + 2), faults=fl or None, tokens=tok)
     do_build(faults * 0.5)
     for _ in range(nsteps):
         if not mutate: break
@@ -76,7 +77,14 @@ def gen_history(rnd, sid, nedges, nsteps, feat=None, faults=0.0, wf_reads=True, 
                 e = rnd.choice(es)
                 cand = [a for a in h.sources if a not in e.exp + e.imp]
                 prod = g.producer()
-                e.hidden = rnd.sample(cand, min(len(cand), rnd.randrange(0, 3)))
+                if e.hidden and cand and rnd.random() < 0.6:
+                    # swap one recorded dependency, same count (the deps-log "unchanged?" shortcut must see it)
+                    k2 = rnd.randrange(len(e.hidden)); e.hidden = e.hidden[:k2] + [rnd.choice(cand)] + e.hidden[k2 + 1:]
+                    e.hidden = [x for i, x in enumerate(e.hidden) if x not in e.hidden[:i]]
+                else:
+                    e.hidden = rnd.sample(cand, min(len(cand), rnd.randrange(0, 3)))
+                for hh in e.hidden:
+                    if hh in prod and hh not in e.oo and wf_reads: e.oo.append(hh)
                 src = rnd.choice([x for x in e.exp if x in h.sources])
                 h.add(Step('sethidden', 'step sethidden %s %s' % (hx(e.out0), ' '.join(hx(x) for x in e.hidden)), edge=e.idx))
                 h.edit(src, '%s.%d' % (src, rnd.randrange(1000000)))
